@@ -20,12 +20,19 @@ NEAR_GRAMMAR = [
 ]
 
 
-def run_case(built, files, structured, macros, use_cache=None, lock=None, amb=None, nofile=None):
+def run_case(built, files, structured, macros, use_cache=None, lock=None, amb=None, nofile=None, links=None):
     with core.Box(tag="c06") as box:
         cfg_text = core.make_config(structured=True if structured else None, macros=macros, use_cache=use_cache)
         for rel, data in files.items():
             box.write(rel, data)
         cfg = box.write("Breadlog.yaml", cfg_text)
+        for name, (target, data) in (links or {}).items():
+            # a symbolic link with a configured extension inside the source directory, pointing at a regular file elsewhere that
+            # lacks references: not in scope in either mode (C15), so it can stop neither the fixpoint nor the check after the edit
+            tp = box.write(target, data)
+            lp = os.path.join(box.proj, name)
+            os.makedirs(os.path.dirname(lp), exist_ok=True)
+            os.symlink(os.path.relpath(tp, os.path.dirname(lp)), lp)
         lockp = os.path.join(box.proj, "Breadlog.lock")
         if lock is not None:
             open(lockp, "w").write(lock)
@@ -135,9 +142,14 @@ def work(job):
         label, files = payload
         structured = (i % 2 == 1)
         macros = gen.DEFAULT_MACROS + [("log", "debug"), ("log", "trace")]
+    links = None
+    if kind == "gen" and rnd.random() < 0.25:
+        links = {"src/net/linked_retry.rs": ("common/retry.rs", b'pub fn retry() {\n    warn!("shared through a link, lacks a reference");\n}\n'),
+                 "src/linked_dir_entry.rs": ("common/other.rs", b'pub fn other() {\n    info!(k = 1; "another one");\n}\n')}
+        res["counters"]["trees_with_symlinked_sources"] = 1
     amb = ambient.choose(rnd, files, p=0.35)
     res["counters"]["ambient_" + amb["kind"]] = 1
-    r = run_case(built, files, structured, macros, use_cache, lock, amb, nofile=(40 if kind == "manyfiles" else None))
+    r = run_case(built, files, structured, macros, use_cache, lock, amb, nofile=(40 if kind == "manyfiles" else None), links=links)
     for x in (r["e1"], r["ck"], r["e2"]):
         if x.panicked() or x.timed_out:
             res["inconclusive"]["run-crashed-or-timeout (C17's business)"] = 1
